@@ -183,16 +183,18 @@ Jobs_C16 ==
 (* ---- C17: landmark instances of the laws (FxLaws) as programs --------------------------------------- *)
 LoadJob(r, v) == [k |-> "ins", op |-> "load", t |-> <<"fx">>, a |-> <<Enc(v)>>, d |-> r, s |-> <<0>>, asg |-> 0, via |-> "", ot |-> "fx"]
 InsJob(i) == [k |-> "ins", op |-> i.op, t |-> i.t, a |-> [q \in DOMAIN i.s |-> Enc(i.imm[q])], d |-> i.d, s |-> i.s, asg |-> 0, via |-> "", ot |-> "fx"]
-ProgJobs(name, vals, n) ==
-   LET T == LawTailOf(name, 1, 2, 3, 4, n) IN
-   <<[k |-> "begin", prog |-> name, id |-> 0, regs |-> <<1, 2, 3>>, f |-> 4, n |-> Enc(n)]>>
+ProgJobsT(name, vals, n, tg) ==
+   LET T == LawTailOf(name, 1, 2, 3, 4, n, tg) IN
+   <<[k |-> "begin", prog |-> name, id |-> 0, regs |-> <<1, 2, 3>>, f |-> 4, n |-> Enc(n), tag |-> tg]>>
    \o [i \in 1..3 |-> LoadJob(i, vals[i])] \o [i \in 1..Len(T) |-> InsJob(T[i])] \o <<[k |-> "end"]>>
+ProgJobs(name, vals, n) == ProgJobsT(name, vals, n, "i64")
 LawLm1 == {x \in LmFinite : TRUE}
 ISq == ZISqrt(P(63))
 LawLm2 == PM({Z0, Z1, OneFx, ZN(98304), P(31), P(46), DomLim -- Z1, DomLim, P(62), Maxv, Maxv -- OneFx, Maxv -- Z1, ISq})
 LawLm3 == PM({Z0, Z1, OneFx, P(46), P(62), Maxv, Maxv -- OneFx})
 LawNs == {ZN(k) : k \in {1, 2, 3, 7, 10, 64, -1, -2, -3, -64, 65536, -65536, 2147483647, -2147483647}} \cup {P(40), ZNeg(P(40)), P(62)}
 SumNs == {ZN(k) : k \in (1..12) \cup {33, 64}}
+LawLmT == {Z0, Z1, ZN(-1), OneFx, ZN(-98304), P(20), ZNeg(P(31)), P(46)}
 Cat(S) == FlatSeq(S2Q(S))
 Jobs_C17 ==
    Cat({ProgJobs(nm, <<a, Z0, Z0>>, Z0) : nm \in {"sub_self", "mul_one", "mul_zero", "div_one", "div_self"}, a \in LawLm1})
@@ -201,6 +203,9 @@ Jobs_C17 ==
    \o Cat({ProgJobs(nm, <<a, b, c>>, Z0) : nm \in {"add_assoc", "add_mono"}, a \in LawLm3, b \in LawLm3, c \in LawLm3})
    \o Cat({ProgJobs("mul_div_n", <<a, Z0, Z0>>, n) : a \in LawLm2, n \in LawNs})
    \o Cat({ProgJobs("mul_n_sum", <<a, Z0, Z0>>, n) : a \in LawLm2 \cup {Maxv // k : k \in SumNs}, n \in SumNs})
+   (* the integer operand in every integral type, over the whole range of the type *)
+   \o FlatSeq([i \in 1..NT |-> Cat({ProgJobsT("mul_div_n", <<a, Z0, Z0>>, n, IntTagsG[i]) : a \in LawLmT, n \in IntLm(IntTagsG[i])})])
+   \o FlatSeq([i \in 1..NT |-> Cat({ProgJobsT("mul_n_sum", <<a, Z0, Z0>>, n, IntTagsG[i]) : a \in {Z1, ZN(-98304), P(40)}, n \in {ZN(3), ZN(11)}})])
 
 (* ---- C07: every entry point, finite and NaN operands, to be run in the sanitizer configurations ------------------ *)
 Lm07 == PM({Z0, Z1, ZN(65535), ZN(65536), ZN(98304), HalfPhi, Phi, ZN(39322), P(31), P(32), P(37), P(46) -- Z1, P(46), DomLim -- Z1, DomLim, P(48) -- Z1, P(48), P(55),
